@@ -1,10 +1,11 @@
 #!/bin/sh
 # confirm_seed.sh <seed-id> <demo-file> : confirm a seeded change in a scratch worktree of /repo HEAD:
 #  (1) existing suite passes with the patch, (2) demo fails with it, (3) demo passes without it.
-ID="$1"; DEMO="$2"; LANE="${3:-0}"
+ID="$1"; DEMO="$2"; LANE="${3:-0}"; DEMOFLAGS="$4"
 WT=/tmp/confirm/wt-$ID
 export CARGO_TARGET_DIR=/tmp/confirm/target-$LANE
 FEAT="mock-core,mock-std,mock-tokio-1,mock-futures-io-0-3,mock-embedded-hal-1"
+[ -z "$DEMOFLAGS" ] && DEMOFLAGS="--features $FEAT"
 git -C /repo worktree add -q --detach "$WT" HEAD || exit 2
 cd "$WT" || exit 2
 OUT=/verif/seeded/$ID/confirm.log
@@ -13,10 +14,10 @@ git apply /verif/seeded/$ID/patch.diff || { echo "patch does not apply" >> $OUT;
 SUITE=$(cargo test --workspace --no-fail-fast --offline 2>&1 | grep -E "^test result" | awk '{p+=$4; f+=$6} END {print p" passed "f" failed"}')
 echo "suite with patch: $SUITE" >> $OUT
 cp "$DEMO" tests/seed_demo.rs
-WITH=$(cargo test --offline --features $FEAT --test seed_demo 2>&1 | grep -E "^test result|SIGABRT|signal" | head -3 | tr '\n' ' ')
-echo "demo with patch: $WITH" >> $OUT
+WITH=$(cargo test --offline $DEMOFLAGS --test seed_demo 2>&1 | grep -E "^test result|SIGABRT|signal" | head -3 | tr '\n' ' ')
+echo "demo with patch ($DEMOFLAGS): $WITH" >> $OUT
 git checkout -q -- src unimock_macros
-WITHOUT=$(cargo test --offline --features $FEAT --test seed_demo 2>&1 | grep -E "^test result|SIGABRT|signal" | head -3 | tr '\n' ' ')
+WITHOUT=$(cargo test --offline $DEMOFLAGS --test seed_demo 2>&1 | grep -E "^test result|SIGABRT|signal" | head -3 | tr '\n' ' ')
 echo "demo without patch: $WITHOUT" >> $OUT
 cd / && git -C /repo worktree remove --force "$WT"
 cat $OUT
